@@ -7,6 +7,7 @@ import (
 	"sort"
 	"strings"
 
+	"github.com/scigolib/hdf5/internal/core"
 	"github.com/scigolib/hdf5/verifsim/model"
 	"github.com/scigolib/hdf5/verifsim/specdec"
 	"github.com/scigolib/hdf5/verifsim/trace"
@@ -87,6 +88,9 @@ func SpecCheck(path string, m *model.Model, prop, mode string) *SpecOutcome {
 				continue
 			}
 			specDataset(pn.Path, n.DS, o, add)
+			if mode == "c12" {
+				libVLen(pn.Path, n.DS, o, b, r.OffsetSize, add)
+			}
 		}
 		if o != nil && (n.Kind == "group" || n.Kind == "dataset") && mode != "c12" {
 			specAttrs(pn.Path, n, o, add)
@@ -229,6 +233,56 @@ func specAttrs(path string, n *model.Node, o *specdec.Object, add func(oracle, c
 	for name := range got {
 		if _, ok := n.Attrs[name]; !ok {
 			add("spec-attrs", "extra:"+o.AttrStorage, path+"@"+name)
+			return
+		}
+	}
+}
+
+// libVLen reads every element of a written variable-length dataset through the
+// library's own global-heap readers (core.ParseGlobalHeapReference,
+// core.ReadGlobalHeapCollection, GetObject - the route the library's compound
+// and attribute readers take) and compares it with the written bytes. The raw
+// element records come from the independent decoder (the public API has no
+// typed read for vlen datasets).
+func libVLen(path string, ds *model.Dataset, o *specdec.Object, file []byte, offsetSize int, add func(oracle, class, detail string)) {
+	if ds.DT.Class != "vlen" || !ds.Written || o.Type == nil || o.DataErr != "" {
+		return
+	}
+	es := int(o.Type.Size)
+	if es < offsetSize+4 || len(o.Data) != es*len(ds.VLen) || (offsetSize != 4 && offsetSize != 8) {
+		return // the decoder's own comparison reports layout problems
+	}
+	rd := bytes.NewReader(file)
+	colls := map[uint64]*core.GlobalHeapCollection{}
+	for i := range ds.VLen {
+		ref, err := core.ParseGlobalHeapReference(o.Data[es*i:es*(i+1)], offsetSize)
+		if err != nil {
+			add("lib-vlen-reader", "reference-error", fmt.Sprintf("%s element %d: %v", path, i, err))
+			return
+		}
+		if ref.HeapAddress == 0 {
+			if len(ds.VLen[i]) != 0 {
+				add("lib-vlen-reader", "null-reference-for-non-empty-element", fmt.Sprintf("%s element %d", path, i))
+				return
+			}
+			continue
+		}
+		c := colls[ref.HeapAddress]
+		if c == nil {
+			c, err = core.ReadGlobalHeapCollection(rd, ref.HeapAddress, offsetSize)
+			if err != nil {
+				add("lib-vlen-reader", "collection-error:"+ErrClass(err.Error()), fmt.Sprintf("%s element %d (%d bytes): collection at %#x: %v", path, i, len(ds.VLen[i]), ref.HeapAddress, err))
+				return
+			}
+			colls[ref.HeapAddress] = c
+		}
+		obj, err := c.GetObject(ref.ObjectIndex)
+		if err != nil {
+			add("lib-vlen-reader", "object-error", fmt.Sprintf("%s element %d: %v", path, i, err))
+			return
+		}
+		if !bytes.Equal(obj.Data, ds.VLen[i]) {
+			add("lib-vlen-reader", "element-differs", fmt.Sprintf("%s element %d: library reader returns %d bytes, %d were written", path, i, len(obj.Data), len(ds.VLen[i])))
 			return
 		}
 	}
